@@ -452,11 +452,60 @@ func (n *Node) Under(a *Node) bool {
 	return false
 }
 
+// GlobalInit returns the value the package initialiser stores into g when that
+// is the only store to g in g's package; nil otherwise.
+func GlobalInit(g *ssa.Global) ssa.Value {
+	if g.Pkg == nil {
+		return nil
+	}
+	var stores []*ssa.Store
+	var visit func(f *ssa.Function)
+	visit = func(f *ssa.Function) {
+		for _, b := range f.Blocks {
+			for _, in := range b.Instrs {
+				if st, ok := in.(*ssa.Store); ok && st.Addr == ssa.Value(g) {
+					stores = append(stores, st)
+				}
+			}
+		}
+		for _, a := range f.AnonFuncs {
+			visit(a)
+		}
+	}
+	for _, mem := range g.Pkg.Members {
+		if f, ok := mem.(*ssa.Function); ok {
+			visit(f)
+		}
+		if t, ok := mem.(*ssa.Type); ok {
+			for _, ms := range []*types.MethodSet{g.Pkg.Prog.MethodSets.MethodSet(t.Type()), g.Pkg.Prog.MethodSets.MethodSet(types.NewPointer(t.Type()))} {
+				for i := 0; i < ms.Len(); i++ {
+					if f := g.Pkg.Prog.MethodValue(ms.At(i)); f != nil {
+						visit(f)
+					}
+				}
+			}
+		}
+	}
+	if len(stores) != 1 || stores[0].Parent().Name() != "init" {
+		return nil
+	}
+	return stores[0].Val
+}
+
 // ConstBytes constant-folds an SSA value that denotes a []byte built from a
 // constant: []byte("..."), a composite literal of constant bytes, or a slice of
 // such an array. ok is false when the value is not a compile-time constant.
 func ConstBytes(v ssa.Value) ([]byte, bool) {
 	switch x := v.(type) {
+	case *ssa.UnOp:
+		// a named package-level constant slice: var sig = []byte{...}, assigned once, by the package initialiser
+		if g, ok := x.X.(*ssa.Global); ok && x.Op == token.MUL {
+			if init := GlobalInit(g); init != nil {
+				if _, again := init.(*ssa.UnOp); !again {
+					return ConstBytes(init)
+				}
+			}
+		}
 	case *ssa.Convert:
 		if k, ok := x.X.(*ssa.Const); ok && k.Value != nil && k.Value.Kind() == constant.String {
 			return []byte(constant.StringVal(k.Value)), true
